@@ -1,7 +1,7 @@
 (* C12 — Copeland and STV follow their definitions. Statements only. *)
-From Coq Require Import ZArith List Bool Lia.
+From Coq Require Import ZArith List Bool Lia Permutation.
 Import ListNotations.
-From SCK Require Import Voting VotingProof STVProof VoteMore.
+From SCK Require Import Voting VotingProof STVProof VoteMore STVRefine.
 Local Open Scope Z_scope.
 
 (* Copeland's score = (number of alternatives beaten) - (number beating) under strict pairwise majority;
@@ -27,6 +27,17 @@ Theorem C12_stv_majority_winner : forall fuel P alts oracle q a w,
   SInv P alts q a -> stv_loop fuel P alts oracle = Some w -> w = a.
 Proof. exact stv_majority. Qed.
 Print Assumptions C12_stv_majority_winner.
+
+(* The coded loop is STV by definition: on complete strict ballots (every row a permutation of 1..m), for EVERY
+   sequence of tie-break answers, it returns what stv_spec returns — the loop that works on the ORIGINAL ballots and a
+   list rem of remaining alternatives, where the count of the alternative at position a is first_count = the number of
+   voters who rank it strictly above every other remaining alternative, one alternative of minimal count is eliminated
+   per round (index o into the minimal candidates in increasing position: 0 = 'first'), and the last one wins. *)
+Theorem C12_stv_is_restricted_ballot_stv : forall fuel P0 m alts oracle,
+  (forall row0, In row0 P0 -> Permutation row0 (map Z.of_nat (seq 1 m))) -> length alts = m ->
+  stv_loop fuel P0 alts oracle = stv_spec fuel P0 (seq 0 m) alts oracle.
+Proof. exact stv_is_restricted_stv. Qed.
+Print Assumptions C12_stv_is_restricted_ballot_stv.
 
 Example C12_nonvacuous :
   SInv [[1; 2; 3]; [1; 3; 2]; [2; 1; 3]] [1; 2; 3] 0 1 /\
